@@ -22,6 +22,10 @@ pub trait KeyColl: KeyExpCollection<XKey, i32, i32> + Sized {
     /// canonical form of the physical state (slot names abstracted away)
     fn canon(&self) -> String;
     fn export(self, t: i32) -> Vec<i32>;
+    /// (key, expiration) of the entries reachable from the root according to the snapshot hook
+    fn stored(&self) -> Option<Vec<(i32, i32)>> {
+        None
+    }
 }
 
 impl KeyColl for KeyExpTree<XKey, i32, i32> {
@@ -92,6 +96,21 @@ impl KeyColl for KeyExpTree<XKey, i32, i32> {
     }
     fn export(self, t: i32) -> Vec<i32> {
         self.into_ordered_vec(t)
+    }
+    fn stored(&self) -> Option<Vec<(i32, i32)>> {
+        let s = self.verif_snapshot();
+        let mut out = vec![];
+        let mut stack = vec![(s.root, 0usize)];
+        while let Some((i, d)) = stack.pop() {
+            if i == i_tree::EMPTY_REF || d > 80 || (i as usize) >= s.nodes.len() {
+                continue;
+            }
+            let n = &s.nodes[i as usize];
+            out.push((n.key.k, n.key.e));
+            stack.push((n.left, d + 1));
+            stack.push((n.right, d + 1));
+        }
+        Some(out)
     }
 }
 
@@ -325,8 +344,10 @@ impl<'a, C: KeyColl> KeySession<'a, C> {
         });
         match o.out {
             Outcome::Ok(c) => {
+                // after an unlogged replay the harness learns from the same snapshot TLC gets what
+                // the tree physically holds (its own record stands in where there is no snapshot)
+                self.mine = c.stored().unwrap_or(mine);
                 self.c = Some(c);
-                self.mine = mine;
                 self.now = now;
             }
             _ => {
